@@ -117,6 +117,16 @@ def check(case, r, tier):
             good.append((("codes-mixed", a, b, c), ".rad50 /A/<%d.>/B/<%d.>/C/<%d.>" % (a, b, c), bytes([w1 & 255, w1 >> 8, w2 & 255, w2 >> 8])))
         good.append((("codes-sym",), ".rad50 <k1><k2><k3>\nk1 = 5\nk2 = 6\nk3 = 7", bytes([((5 * 40 + 6) * 40 + 7) & 255, ((5 * 40 + 6) * 40 + 7) >> 8])))
         batch.run_valid_batch(good, r, ID)
+        # a code computed from a label that stands *after* the statement: the length of a '.rad50' does not depend on its codes
+        for text, want in (("s: .rad50 <e-s>\ne:\n", [2 * 1600]), ("s: .rad50 /A/<e-s>/B/\ne:\n", [(1 * 40 + 2) * 40 + 2]), (".link 1000\n.rad50 <z-1000>\nz:\n", [2 * 1600]),
+                           ("s: .rad50 /ABC/<e-s>\ne: .word e-s\n", [(1 * 40 + 2) * 40 + 3, 4 * 1600, 4]), ("1$: .rad50 <2$-1$><2$-1$-1>\n2$:\n", [(2 * 40 + 1) * 40]),
+                           ("s: .repeat 2 { .rad50 <e-s> }\ne:\n", [4 * 1600, 4 * 1600])):
+            wb = b"".join(bytes([w & 255, w >> 8]) for w in want)
+            out = _driver.assemble([("f.mac", text)])
+            okk = out.status == "ok" and out.code == wb
+            r.ran("ok" if okk else out.cls(), key=("code-from-later-label", text))
+            if not okk:
+                r.violation("code-from-later-label:%s" % (out.cls() if out.status != "ok" else "wrong-bytes"), "a <n> code taken from a label that follows the statement", {"kind": "single", "text": text, "expected_hex": wb.hex()}, wb.hex(), out.brief())
         # inside '.repeat' the same token is evaluated once per iteration and <n> may depend on '.'
         for n in (2, 3, 5):
             text = ".link 1000\ntb: .repeat %d { .rad50 /SEG/<<.-tb>/4+36> }\n" % n
